@@ -15,7 +15,7 @@ CHECK_DEADLOCK FALSE
 """
 
 
-def oracle_replay(ctx, seed_recs, ply, props, text=False, attacks=False, game_sample=0, label="oracle", timeout=7200, boards_out=None):
+def oracle_replay(ctx, seed_recs, ply, props, text=False, attacks=False, game_sample=0, label="oracle", timeout=7200, boards_out=None, reached=False):
     """TLC explores layer R breadth-first from the seeds and prints one record per state; the
     harness replays every record against the real code.  Returns the harness summary."""
     seeds_path = write_ndjson(ctx.path(label + "_seeds.ndjson"), seed_recs)
@@ -31,6 +31,8 @@ def oracle_replay(ctx, seed_recs, ply, props, text=False, attacks=False, game_sa
     hargs = ["replay", out, "--props", ",".join(props), "--threads", "16", "--game-sample", str(game_sample)]
     if boards_out:
         hargs += ["--boards-out", boards_out]
+    if reached:
+        hargs += ["--reached"]
     summ = harness(hargs, timeout=timeout)
     if summ["records"] != r.nrecords:
         raise ToolError("harness replayed %d of %d oracle records" % (summ["records"], r.nrecords))
